@@ -92,6 +92,9 @@ func genRaceCase(r *simrt.Rand, c *Case, tier string) *Case {
 		}
 	}
 	c.N = r.Intn(1<<30) | 1
+	if r.P(0.15) {
+		c.Note = "broken" // several files end in a malformed directive: the error paths run concurrently
+	}
 	return c
 }
 
@@ -140,6 +143,11 @@ func evalRace(c *Case) (*Violation, bool) {
 	}
 	defer os.RemoveAll(dir)
 	files := c.L.Files(c.J)
+	if c.Note == "broken" {
+		for name := range files {
+			files[name] += "\n2020-13-45 open Assets:Oops\n"
+		}
+	}
 	for name, txt := range files {
 		p := filepath.Join(dir, name)
 		_ = os.MkdirAll(filepath.Dir(p), 0o755)
